@@ -222,6 +222,10 @@ def r3_accumulators(ctx, rep, R='C12.R3'):
     shared = [p for p in params(a) if p in params(b) and p in ('failures', 'errors', 'skipped')]
     ma = _mutated_params(a, shared)
     mb = _mutated_params(b, shared)
+    # accumulators filled through an alias (``for count, tests in ((nfail, failures), ...)``)
+    from . import c07
+    gb = ctx.cfg(b)
+    mb |= {c.acc for c in c07._consumer_loops(ctx, b, gb) if c.acc in shared}
     rep.floor(R, len(ma), 3, 'accumulators filled in-process')
     for p in sorted(ma):
         rep.check(p in mb, R, 'accumulator %r is filled on both paths' % p,
